@@ -55,6 +55,181 @@ fn hist_str(h: &[Op]) -> String {
         .join(",")
 }
 
+/// violation class: the description without its numbers ("step 3: append returned index 7 ..." -> "append-returned-index")
+fn why_class(why: &str) -> String {
+    why.split(": ").nth(1).unwrap_or(why).split_whitespace().filter(|w| !w.chars().any(|c| c.is_ascii_digit())).take(4).collect::<Vec<_>>().join("-").replace(|c: char| !c.is_ascii_alphanumeric() && c != '-' && c != '_', "")
+}
+
+/// The same lock-step comparison for ANY value type: `vals` is the value alphabet, `ops` = (is_fetch, index into vals),
+/// `prefill` values are appended first. Returns a description of the first disagreement.
+pub fn generic_hist<T: PartialEq + Clone>(prefill: &[T], vals: &[T], ops: &[(bool, usize)], same: &dyn Fn(&T, &T) -> bool) -> Option<String> {
+    let mut real: Storage<T> = Storage::new();
+    let mut model: Vec<T> = vec![];
+    let mut handed: Vec<(Token<T>, usize)> = vec![]; // token, model index it stands for
+    for v in prefill {
+        let t = real.append(v.clone());
+        if t.index() as usize != model.len() {
+            return Some(format!("prefill: append returned index {} but {} values were stored", t.index(), model.len()));
+        }
+        // a few tokens of the prefilled part are watched too
+        let i = model.len();
+        if i == 0 || i == prefill.len() / 2 || i + 1 == prefill.len() {
+            handed.push((t, i));
+        }
+        model.push(v.clone());
+    }
+    for (step, (is_fetch, vi)) in ops.iter().enumerate() {
+        let v = &vals[*vi];
+        let prev = model.len();
+        if *is_fetch {
+            let t = real.fetch_or_append(v.clone());
+            match model.iter().position(|m| m == v) {
+                Some(p) => {
+                    if t.index() as usize != p {
+                        return Some(format!("step {}: fetch_or_append returned index {}, first equal stored value is at {}", step, t.index(), p));
+                    }
+                    handed.push((t, p));
+                }
+                None => {
+                    if t.index() as usize != prev {
+                        return Some(format!("step {}: fetch_or_append (miss) returned index {} but {} values were stored", step, t.index(), prev));
+                    }
+                    model.push(v.clone());
+                    handed.push((t, prev));
+                }
+            }
+        } else {
+            let t = real.append(v.clone());
+            if t.index() as usize != prev {
+                return Some(format!("step {}: append returned index {} but {} values were stored", step, t.index(), prev));
+            }
+            model.push(v.clone());
+            handed.push((t, prev));
+        }
+        for (t, mi) in &handed {
+            if !same(&real[*t], &model[*mi]) {
+                return Some(format!("step {}: token {} no longer yields the value it was handed out for", step, t.index()));
+            }
+        }
+    }
+    None
+}
+
+/// all op sequences of length <= depth over (append | fetch) x vals
+fn all_ops(nvals: usize, depth: usize) -> Vec<Vec<(bool, usize)>> {
+    let alpha: Vec<(bool, usize)> = (0..nvals).flat_map(|i| [(false, i), (true, i)]).collect();
+    let mut out = vec![vec![]];
+    let mut layer: Vec<Vec<(bool, usize)>> = vec![vec![]];
+    for _ in 0..depth {
+        let mut next = vec![];
+        for h in &layer {
+            for a in &alpha {
+                let mut t = h.clone();
+                t.push(*a);
+                next.push(t);
+            }
+        }
+        out.extend(next.iter().cloned());
+        layer = next;
+    }
+    out
+}
+
+#[derive(Clone, Debug)]
+struct ZEq;
+impl PartialEq for ZEq {
+    fn eq(&self, _: &ZEq) -> bool {
+        true
+    }
+}
+#[derive(Clone, Debug)]
+struct ZNan;
+impl PartialEq for ZNan {
+    fn eq(&self, _: &ZNan) -> bool {
+        false
+    }
+}
+#[derive(Clone, Debug)]
+struct Big([u64; 40]);
+impl PartialEq for Big {
+    fn eq(&self, o: &Big) -> bool {
+        self.0[0] == o.0[0]
+    }
+}
+
+/// other value types (zero-sized with universal / empty equality, heap-allocated, large, floats with NaN) and
+/// storages on both sides of 2^8 and 2^16 values
+fn other_types(tier: Tier) -> (u64, Vec<Viol>) {
+    use rayon::prelude::*;
+    let mut n = 0u64;
+    let mut viols = vec![];
+    let mut report = |ty: &str, ops: &[(bool, usize)], k: usize, why: String| {
+        viols.push(viol(format!("C19:{}:{}", ty, why_class(&why)), format!("Storage<{}> prefilled with {} values, operations {:?} (fetch?, value index): {}", ty, k, ops, why), json!({"kind": "c19-generic", "type": ty, "prefill": k, "ops": ops.iter().map(|(f, i)| json!([f, i])).collect::<Vec<_>>()})));
+    };
+    let d = tier.pick(5, 6);
+    for ops in all_ops(1, d) {
+        n += 2;
+        let r = guarded(|| generic_hist(&[], &[ZEq], &ops, &|_, _| true));
+        if let Some(w) = r.unwrap_or_else(|p| Some(format!("x: panic {}", p))) {
+            report("ZstAlwaysEqual", &ops, 0, w);
+        }
+        let r = guarded(|| generic_hist(&[], &[ZNan], &ops, &|_, _| true));
+        if let Some(w) = r.unwrap_or_else(|p| Some(format!("x: panic {}", p))) {
+            report("ZstNeverEqual", &ops, 0, w);
+        }
+    }
+    let strs = [String::new(), "a".to_string(), "a".to_string() + "", "b".repeat(100)];
+    let bigs = [Big([1; 40]), { let mut b = [1; 40]; b[39] = 7; Big(b) }, Big([2; 40])];
+    let floats = [0.0f32, -0.0, f32::NAN, 1.5];
+    for ops in all_ops(3, tier.pick(4, 5)) {
+        n += 3;
+        let r = guarded(|| generic_hist(&[], &strs[..3], &ops, &|a, b| a == b));
+        if let Some(w) = r.unwrap_or_else(|p| Some(format!("x: panic {}", p))) {
+            report("String", &ops, 0, w);
+        }
+        let r = guarded(|| generic_hist(&[], &bigs, &ops, &|a: &Big, b: &Big| a.0 == b.0));
+        if let Some(w) = r.unwrap_or_else(|p| Some(format!("x: panic {}", p))) {
+            report("Big([u64;40])", &ops, 0, w);
+        }
+        let r = guarded(|| generic_hist(&[], &floats[..3], &ops, &|a: &f32, b: &f32| a.to_bits() == b.to_bits()));
+        if let Some(w) = r.unwrap_or_else(|p| Some(format!("x: panic {}", p))) {
+            report("f32", &ops, 0, w);
+        }
+    }
+    // storages around 2^8 and 2^16 values: values 0..k prefilled, then every sequence of <= 2 operations over
+    // {first, middle, last stored value, two values not stored}
+    let ks: Vec<usize> = match tier {
+        Tier::Quick => vec![255, 256, 257, 65535, 65536, 65537],
+        Tier::Thorough => vec![127, 128, 129, 255, 256, 257, 1023, 1024, 1025, 4095, 4096, 4097, 32767, 32768, 65534, 65535, 65536, 65537, 65538, 70000, 131072, 131073],
+    };
+    let res: Vec<(u64, Vec<(Vec<(bool, usize)>, usize, String)>)> = ks
+        .par_iter()
+        .map(|&k| {
+            let prefill: Vec<u32> = (0..k as u32).collect();
+            let vals = [0u32, (k / 2) as u32, (k - 1) as u32, k as u32, k as u32 + 1];
+            let mut m = 0;
+            let mut bad = vec![];
+            for ops in all_ops(vals.len(), 2) {
+                m += 1;
+                let r = guarded(|| generic_hist(&prefill, &vals, &ops, &|a, b| a == b));
+                if let Some(w) = r.unwrap_or_else(|p| Some(format!("x: panic {}", p))) {
+                    if bad.len() < 2 {
+                        bad.push((ops.clone(), k, w));
+                    }
+                }
+            }
+            (m, bad)
+        })
+        .collect();
+    for (m, bad) in res {
+        n += m;
+        for (ops, k, w) in bad {
+            report("u32", &ops, k, w);
+        }
+    }
+    (n, viols)
+}
+
 pub fn run_hist(h: &[Op]) -> Step {
     let mut viols: Vec<Viol> = vec![];
     let mut outcomes = vec![];
@@ -124,11 +299,11 @@ pub fn run_hist(h: &[Op]) -> Step {
     });
     match res {
         Err(p) => {
-            viols.push(viol(format!("C19:{}", hist_str(h)), format!("panic: {}", p), json!({"kind": "c19", "history": hist_str(h)})));
+            viols.push(viol(format!("C19:panic@{}", crate::report::panic_class(&p)), format!("history [{}] panics: {}", hist_str(h), p), json!({"kind": "c19", "history": hist_str(h)})));
             Step { key: None, viols, outcomes }
         }
         Ok((Some(why), _, _)) => {
-            viols.push(viol(format!("C19:{}", hist_str(h)), why, json!({"kind": "c19", "history": hist_str(h)})));
+            viols.push(viol(format!("C19:{}", why_class(&why)), format!("history [{}]: {}", hist_str(h), why), json!({"kind": "c19", "history": hist_str(h)})));
             Step { key: None, viols, outcomes }
         }
         Ok((None, model, last)) => {
@@ -193,6 +368,10 @@ pub fn run(tier: Tier) -> Run {
         run.add_all(vs);
     }
     run.outcome("continuations_from_prefilled_storages", big_n);
+    let (other_n, other_v) = other_types(tier);
+    run.add_all(other_v);
+    run.outcome("histories_over_other_value_types_and_large_storages", other_n);
+    let big_n = big_n + other_n;
     run.add_all(a.viols.clone());
     run.add_all(b.viols.clone());
     run.merge_outcomes(&a.outcomes);
@@ -202,7 +381,8 @@ pub fn run(tier: Tier) -> Run {
     run.set("traces_validated_against_impl", json!(a.histories_replayed + b.histories_replayed + big_n));
     run.set("max_depth", json!(b.max_depth.max(a.max_depth)));
     run.set("bounds", json!({"alphabet": alpha.len(), "full_enumeration_depth": d_enum, "closure_depth": d_clos,
-        "values": "6 values: two equal-by-key with different tags, two distinct, one unequal to itself, one whose equality is asymmetric", "prefilled_storages": format!("k = 0..{} distinct values, then every 2-step continuation over the base alphabet + fetch/append of each stored value", kmax)}));
+        "values": "6 values: two equal-by-key with different tags, two distinct, one unequal to itself, one whose equality is asymmetric", "other_value_types": "zero-sized (always equal / never equal), String, 320-byte arrays keyed on one element, f32 with NaN and signed zero; u32 storages prefilled with 255..65537 (thorough ..131073) values",
+        "prefilled_storages": format!("k = 0..{} distinct values, then every 2-step continuation over the base alphabet + fetch/append of each stored value", kmax)}));
     run.set("bound_completed", json!({"enumeration_depth": a.depth_completed, "closure_depth": if b.depth_completed == usize::MAX { d_clos } else { b.depth_completed }}));
     run.set("enumeration", json!({"states": a.states, "transitions": a.transitions}));
     run.set("closure", json!({"states": b.states, "transitions": b.transitions, "per_depth_states": b.per_depth_states}));
